@@ -61,6 +61,8 @@ def compile_tu(tu, compiler="g++", std="c++20", extra_flags=(), timeout=600):
     except subprocess.TimeoutExpired:
         raise D.AnalysisBroken("witness TU %s: compiler timed out" % tu.name)
     results = {}
+    contexts = {}
+    tu.contexts = contexts
     unattributed = []
     if compiler == "g++":
         import re
@@ -68,9 +70,12 @@ def compile_tu(tu, compiler="g++", std="c++20", extra_flags=(), timeout=600):
         hdr = re.compile(r"^(.*?): (In instantiation of|In substitution of|In function|In member function|In constructor|"
                          r"In destructor|In lambda function|At global scope|In static member function|In copy constructor)")
         loc = re.compile(r"^(.*?):(\d+):(\d+): (.*)$")
+        where = ""
         for ln in r.stderr.split("\n"):
             if hdr.match(ln) or ln.endswith("At global scope:"):
                 ctx = []
+                q = re.search(r"'(.*)'", ln)
+                where = q.group(1) if q else ""
                 continue
             m = loc.match(ln)
             if not m:
@@ -83,6 +88,7 @@ def compile_tu(tu, compiler="g++", std="c++20", extra_flags=(), timeout=600):
                     cand.append(line)
                 if cand:
                     results.setdefault(cand[-1], []).append(msg)
+                    contexts.setdefault(cand[-1], []).append(where)
                 else:
                     unattributed.append("%s:%d: %s" % (f, line, msg))
             elif f == path and line in tu.obl and ("required from" in rest or "required by" in rest or "in 'constexpr' expansion" in rest
